@@ -86,12 +86,64 @@ def run(ctx):
         d = meta.same_outcome(o1, o2, rvd_map=True, swap=True)
         if d:
             ctx.violation("exchanging prediction and reference does not mirror the result: " + d, {"cfg": cfg, "pred": p, "ref": r})
+    grouped_cases(ctx)
+
+
+def grouped_cases(ctx):
+    """class groups, one of which occurs on ONE side only: every group's result must mirror under exchange"""
+    from panoptica.utils.segmentation_class import SegmentationClassGroups
+    from panoptica.utils.label_group import LabelGroup
+    rng = ctx.rng
+    for _ in range(ctx.scale(25, 250)):
+        shape = (rng.randint(5, 8), rng.randint(10, 16))
+        ref = np.zeros(shape, np.uint8); pred = np.zeros(shape, np.uint8)
+        ref[0:3, 0:4] = 1; pred[0:3, 0:rng.randint(3, 5)] = 1
+        ref[0:2, 6:9] = 2; pred[0:rng.randint(1, 3), 6:9] = 2
+        only = rng.choice(["pred", "ref", "both"])
+        if only in ("pred", "both"):
+            pred[shape[0] - 2:, 1:4] = 3
+        if only == "ref":
+            ref[shape[0] - 2:, 1:4] = 3
+        if only == "both":
+            ref[shape[0] - 2:, 2:5] = 3
+        spec = {"organs": [1, 2], "lesion": [3]}
+        it = rng.choice(["unmatched", "semantic"])
+        cfg = {"input": it, "matcher": "naive", "m2o": False, "mmetric": "IOU", "mthr": 0.5, "imetrics": ["IOU", "DSC"], "gmetrics": []}
+        if it == "semantic":
+            cfg["backend"] = rng.choice(["cc3d", "scipy"])
+        mk = lambda: SegmentationClassGroups({n: LabelGroup(ls) for n, ls in spec.items()})
+        o1 = impl.evaluate(impl.make_evaluator({**cfg, "groups": mk()}), pred.copy(), ref.copy())
+        o2 = impl.evaluate(impl.make_evaluator({**cfg, "groups": mk()}), ref.copy(), pred.copy())
+        ctx.count({"grouped": only, "cfg": cfg, "pred": pred.tolist(), "ref": ref.tolist()}, True)
+        ctx.bump(f"grouped/{it}/third group on {only}")
+        if isinstance(o1, tuple) or isinstance(o2, tuple):
+            if isinstance(o1, tuple) != isinstance(o2, tuple):
+                ctx.violation("one orientation of a grouped evaluation raised", {"cfg": cfg, "groups": spec, "pred": pred, "ref": ref})
+            continue
+        for g in spec:
+            d = meta.same_outcome(o1, o2, group=g, rvd_map=True, swap=True)
+            if d:
+                ctx.violation(f"group {g}: exchanging prediction and reference does not mirror the result: " + d,
+                              {"cfg": cfg, "groups": spec, "group": g, "pred": pred, "ref": ref})
+                break
 
 
 def replay(path):
     common.serial_pool()
     d = json.loads(open(path).read())
     p, r = common.arr_from_json(d["pred"]), common.arr_from_json(d["ref"])
+    if "groups" in d:
+        from panoptica.utils.segmentation_class import SegmentationClassGroups
+        from panoptica.utils.label_group import LabelGroup
+        mk = lambda: SegmentationClassGroups({n: LabelGroup(ls) for n, ls in d["groups"].items()})
+        o1 = impl.evaluate(impl.make_evaluator({**d["cfg"], "groups": mk()}), p.copy(), r.copy())
+        o2 = impl.evaluate(impl.make_evaluator({**d["cfg"], "groups": mk()}), r.copy(), p.copy())
+        rc = 0
+        for g in d["groups"]:
+            diff = meta.same_outcome(o1, o2, group=g, rvd_map=True, swap=True)
+            print(f"group {g}: difference:", diff)
+            rc |= bool(diff)
+        return rc
     o1, o2 = meta.run_both(d["cfg"], p, r, r, p)
     diff = meta.same_outcome(o1, o2, rvd_map=True, swap=True)
     print("difference:", diff)
